@@ -1,1 +1,304 @@
-import PQ.Model.Stats
+import PQ.Lemmas.Stats
+/-!
+# C12 — page statistics are sound bounds and exact null counts
+
+"The statistics written for each page are sound: null_count equals the number of entries without a
+value, and when min/max are present every non-null, non-NaN value v of the page satisfies
+min <= v <= max in the column type's order (signed, unsigned, floating point, bytewise for
+strings). Min/max are absent when the page has no non-null value."
+
+Vocabulary (defined in `PQ/Lemmas/Stats.lean`): `acc ty maxDef es` is the accumulator after the
+page `es` (`pageStats c es = acc c.ty (if c.isRequired then 0 else c.maxDef) es` by `rfl`),
+`Striped maxDef es` the striping invariant (`PQ.C03.levels_bounded`), `isNaN ty v`,
+`le ty a b := vLt ty b a = false` (`a ≤ b` in the column type's order; `le_iff_key`, `le_str_iff`
+say it is `≤` on the signed / unsigned / IEEE key, resp. bytewise lexicographic `≤`),
+`Numeric ty := ty ≠ .bool ∧ ty ≠ .str`.
+
+Hypotheses that turned out not to be needed are not assumed: no well-typedness of values (`WT`),
+no `Striped` for `absent_if_empty`, and the bounds hold for the NaN values too in the `¬ <` form
+(every comparison with NaN is false); the `¬ isNaN` guard is what makes `le` read as `≤`.
+-/
+namespace PQ.C12
+open PQ
+
+/-! ## 1. null_count -/
+
+/-- `nils` counts exactly the entries below the maximal definition level -/
+theorem null_count_exact (ty : PType) (maxDef : Nat) (es : List (Entry Bytes)) :
+    (acc ty maxDef es).nils = (es.filter (fun e => decide (e.dl < maxDef))).length :=
+  nils_eq ty maxDef es
+
+/-- … which for striped entries are exactly the entries without a value -/
+theorem null_count_exact_striped (ty : PType) {maxDef : Nat} {es : List (Entry Bytes)}
+    (hs : Striped maxDef es) :
+    (acc ty maxDef es).nils = (es.filter (fun e => e.val.isNone)).length := by
+  rw [nils_eq, filter_null_striped hs]
+
+/-- every optional kind (all eight types, bool and string included) reports it -/
+theorem null_count_reported (ty : PType) {maxDef : Nat} {es : List (Entry Bytes)}
+    (hs : Striped maxDef es) :
+    ((acc ty maxDef es).result ty false).1 = some (es.filter (fun e => e.val.isNone)).length := by
+  rw [result_nulls_optional, null_count_exact_striped ty hs]
+
+/-- the required kinds report no null_count (and a striped required page has no null entry) -/
+theorem null_count_required (ty : PType) (maxDef : Nat) (es : List (Entry Bytes)) :
+    ((acc ty maxDef es).result ty true).1 = none :=
+  result_nulls_required ty _
+
+/-! ## 2./3. min ≤ v ≤ max -/
+
+/-- all types and kinds at once: if min and max are reported, every non-null non-NaN value of the
+page lies between them in the column type's order -/
+theorem bounds_sound (ty : PType) {maxDef : Nat} {es : List (Entry Bytes)} (required : Bool)
+    (hs : Striped maxDef es) {mn mx : Bytes}
+    (hmn : ((acc ty maxDef es).result ty required).2.1 = some mn)
+    (hmx : ((acc ty maxDef es).result ty required).2.2 = some mx) :
+    ∀ e ∈ es, ∀ v, e.val = some v → isNaN ty v = false → le ty mn v ∧ le ty v mx :=
+  fun _ he v hv _ => bounds_reported ty maxDef es required hmn hmx v (seen_of_striped hs he hv)
+
+/-- the reported bounds are themselves never NaN, so `le` against them is a genuine `≤` -/
+theorem bounds_not_nan (ty : PType) (maxDef : Nat) (es : List (Entry Bytes)) (required : Bool)
+    {mn mx : Bytes}
+    (hmn : ((acc ty maxDef es).result ty required).2.1 = some mn)
+    (hmx : ((acc ty maxDef es).result ty required).2.2 = some mx) :
+    isNaN ty mn = false ∧ isNaN ty mx = false :=
+  ⟨(not_nan_reported ty maxDef es required).1 mn hmn, (not_nan_reported ty maxDef es required).2 mx hmx⟩
+
+/-- numeric types, on the integer key the type's order compares (two's complement value,
+unsigned value, IEEE sign-magnitude key) -/
+theorem bounds_sound_key {ty : PType} (hn : Numeric ty) {maxDef : Nat} {es : List (Entry Bytes)}
+    (required : Bool) (hs : Striped maxDef es) {mn mx : Bytes}
+    (hmn : ((acc ty maxDef es).result ty required).2.1 = some mn)
+    (hmx : ((acc ty maxDef es).result ty required).2.2 = some mx) :
+    ∀ e ∈ es, ∀ v, e.val = some v → isNaN ty v = false →
+      key ty mn ≤ key ty v ∧ key ty v ≤ key ty mx := by
+  intro e he v hv hnan
+  have ⟨n1, n2⟩ := bounds_not_nan ty maxDef es required hmn hmx
+  have ⟨b1, b2⟩ := bounds_sound ty required hs hmn hmx e he v hv hnan
+  exact ⟨(le_iff_key hn n1 hnan).1 b1, (le_iff_key hn hnan n2).1 b2⟩
+
+theorem bounds_sound_i32 {maxDef : Nat} {es : List (Entry Bytes)} (required : Bool)
+    (hs : Striped maxDef es) {mn mx : Bytes}
+    (hmn : ((acc .i32 maxDef es).result .i32 required).2.1 = some mn)
+    (hmx : ((acc .i32 maxDef es).result .i32 required).2.2 = some mx) :
+    ∀ e ∈ es, ∀ v, e.val = some v →
+      toSigned 4 (fromLE mn) ≤ toSigned 4 (fromLE v) ∧ toSigned 4 (fromLE v) ≤ toSigned 4 (fromLE mx) :=
+  fun e he v hv => bounds_sound_key (ty := .i32) (by decide) required hs hmn hmx e he v hv rfl
+
+theorem bounds_sound_i64 {maxDef : Nat} {es : List (Entry Bytes)} (required : Bool)
+    (hs : Striped maxDef es) {mn mx : Bytes}
+    (hmn : ((acc .i64 maxDef es).result .i64 required).2.1 = some mn)
+    (hmx : ((acc .i64 maxDef es).result .i64 required).2.2 = some mx) :
+    ∀ e ∈ es, ∀ v, e.val = some v →
+      toSigned 8 (fromLE mn) ≤ toSigned 8 (fromLE v) ∧ toSigned 8 (fromLE v) ≤ toSigned 8 (fromLE mx) :=
+  fun e he v hv => bounds_sound_key (ty := .i64) (by decide) required hs hmn hmx e he v hv rfl
+
+theorem bounds_sound_u32 {maxDef : Nat} {es : List (Entry Bytes)} (required : Bool)
+    (hs : Striped maxDef es) {mn mx : Bytes}
+    (hmn : ((acc .u32 maxDef es).result .u32 required).2.1 = some mn)
+    (hmx : ((acc .u32 maxDef es).result .u32 required).2.2 = some mx) :
+    ∀ e ∈ es, ∀ v, e.val = some v → fromLE mn ≤ fromLE v ∧ fromLE v ≤ fromLE mx := by
+  intro e he v hv
+  have := bounds_sound_key (ty := .u32) (by decide) required hs hmn hmx e he v hv rfl
+  simp only [key] at this
+  omega
+
+theorem bounds_sound_u64 {maxDef : Nat} {es : List (Entry Bytes)} (required : Bool)
+    (hs : Striped maxDef es) {mn mx : Bytes}
+    (hmn : ((acc .u64 maxDef es).result .u64 required).2.1 = some mn)
+    (hmx : ((acc .u64 maxDef es).result .u64 required).2.2 = some mx) :
+    ∀ e ∈ es, ∀ v, e.val = some v → fromLE mn ≤ fromLE v ∧ fromLE v ≤ fromLE mx := by
+  intro e he v hv
+  have := bounds_sound_key (ty := .u64) (by decide) required hs hmn hmx e he v hv rfl
+  simp only [key] at this
+  omega
+
+theorem bounds_sound_f32 {maxDef : Nat} {es : List (Entry Bytes)} (required : Bool)
+    (hs : Striped maxDef es) {mn mx : Bytes}
+    (hmn : ((acc .f32 maxDef es).result .f32 required).2.1 = some mn)
+    (hmx : ((acc .f32 maxDef es).result .f32 required).2.2 = some mx) :
+    fIsNaN 8 23 (fromLE mn) = false ∧ fIsNaN 8 23 (fromLE mx) = false ∧
+    ∀ e ∈ es, ∀ v, e.val = some v → fIsNaN 8 23 (fromLE v) = false →
+      fLt 8 23 (fromLE v) (fromLE mn) = false ∧ fLt 8 23 (fromLE mx) (fromLE v) = false ∧
+      fKey 8 23 (fromLE mn) ≤ fKey 8 23 (fromLE v) ∧ fKey 8 23 (fromLE v) ≤ fKey 8 23 (fromLE mx) :=
+  have nn := bounds_not_nan .f32 maxDef es required hmn hmx
+  ⟨nn.1, nn.2, fun e he v hv hnan =>
+    have b := bounds_sound .f32 required hs hmn hmx e he v hv hnan
+    have k := bounds_sound_key (ty := .f32) (by decide) required hs hmn hmx e he v hv hnan
+    ⟨b.1, b.2, k.1, k.2⟩⟩
+
+theorem bounds_sound_f64 {maxDef : Nat} {es : List (Entry Bytes)} (required : Bool)
+    (hs : Striped maxDef es) {mn mx : Bytes}
+    (hmn : ((acc .f64 maxDef es).result .f64 required).2.1 = some mn)
+    (hmx : ((acc .f64 maxDef es).result .f64 required).2.2 = some mx) :
+    fIsNaN 11 52 (fromLE mn) = false ∧ fIsNaN 11 52 (fromLE mx) = false ∧
+    ∀ e ∈ es, ∀ v, e.val = some v → fIsNaN 11 52 (fromLE v) = false →
+      fLt 11 52 (fromLE v) (fromLE mn) = false ∧ fLt 11 52 (fromLE mx) (fromLE v) = false ∧
+      fKey 11 52 (fromLE mn) ≤ fKey 11 52 (fromLE v) ∧ fKey 11 52 (fromLE v) ≤ fKey 11 52 (fromLE mx) :=
+  have nn := bounds_not_nan .f64 maxDef es required hmn hmx
+  ⟨nn.1, nn.2, fun e he v hv hnan =>
+    have b := bounds_sound .f64 required hs hmn hmx e he v hv hnan
+    have k := bounds_sound_key (ty := .f64) (by decide) required hs hmn hmx e he v hv hnan
+    ⟨b.1, b.2, k.1, k.2⟩⟩
+
+/-- strings: bytewise lexicographic order (`List Nat` `≤` = Go's string comparison) -/
+theorem bounds_sound_str {maxDef : Nat} {es : List (Entry Bytes)} (required : Bool)
+    (hs : Striped maxDef es) {mn mx : Bytes}
+    (hmn : ((acc .str maxDef es).result .str required).2.1 = some mn)
+    (hmx : ((acc .str maxDef es).result .str required).2.2 = some mx) :
+    ∀ e ∈ es, ∀ v, e.val = some v → mn ≤ v ∧ v ≤ mx := by
+  intro e he v hv
+  have ⟨b1, b2⟩ := bounds_sound .str required hs hmn hmx e he v hv rfl
+  exact ⟨(le_str_iff mn v).1 b1, (le_str_iff v mx).1 b2⟩
+
+/-- NaN never enters a numeric accumulator: min and max are untouched -/
+theorem nan_ignored {ty : PType} (hn : Numeric ty) (s : Stats) {v : Bytes} (hv : isNaN ty v = true) :
+    s.addVal ty v = { s with nonNils := s.nonNils + 1 } :=
+  addVal_nan hn s hv
+
+/-! ## 4. presence -/
+
+/-- no non-null value: optional kinds, strings and bools report neither min nor max -/
+theorem absent_if_empty {ty : PType} {required : Bool}
+    (h : required = false ∨ ty = .str ∨ ty = .bool) (maxDef : Nat) {es : List (Entry Bytes)}
+    (hv : ∀ e ∈ es, e.val = none) :
+    ((acc ty maxDef es).result ty required).2.1 = none ∧
+    ((acc ty maxDef es).result ty required).2.2 = none :=
+  absent_of_no_value h maxDef hv
+
+/-- bool columns never report min / max -/
+theorem bool_always_absent (required : Bool) (maxDef : Nat) (es : List (Entry Bytes)) :
+    ((acc .bool maxDef es).result .bool required).2.1 = none ∧
+    ((acc .bool maxDef es).result .bool required).2.2 = none :=
+  result_bool required _
+
+/-- optional kinds and strings: min / max are present exactly when the page has a non-null value -/
+theorem present_iff_value {ty : PType} {required : Bool} (h : required = false ∨ ty = .str)
+    (hb : ty ≠ .bool) {maxDef : Nat} {es : List (Entry Bytes)} (hs : Striped maxDef es) :
+    ((((acc ty maxDef es).result ty required).2.1.isSome = true) ↔ ∃ e ∈ es, e.val.isSome = true) ∧
+    ((((acc ty maxDef es).result ty required).2.2.isSome = true) ↔ ∃ e ∈ es, e.val.isSome = true) := by
+  have hseen : (∃ v, Seen maxDef es v) ↔ ∃ e ∈ es, e.val.isSome = true := by
+    constructor
+    · intro ⟨v, hv⟩
+      have ⟨e, he, hev⟩ := (seen_iff_striped hs v).1 hv
+      exact ⟨e, he, by rw [hev]; rfl⟩
+    · intro ⟨e, he, hev⟩
+      cases hv : e.val with
+      | none => rw [hv] at hev; cases hev
+      | some v => exact ⟨v, (seen_iff_striped hs v).2 ⟨e, he, hv⟩⟩
+  have := present_iff h hb maxDef es
+  rw [hseen] at this
+  exact this
+
+/-- required numeric kinds always report min and max (also for a page without values, where they
+are the initial `math.Max<T>` / `0`): the property's last clause needs the guard "page has ≥ 1
+value" for them, which holds for every written page -/
+theorem required_numeric_always_present {ty : PType} (hn : Numeric ty) (maxDef : Nat)
+    (es : List (Entry Bytes)) :
+    ((acc ty maxDef es).result ty true).2.1 = some (acc ty maxDef es).min ∧
+    ((acc ty maxDef es).result ty true).2.2 = some (acc ty maxDef es).max :=
+  result_required_num hn _
+
+/-! ## 5. provenance -/
+
+/-- statistics never invent values: a reported min (max) is the initial `math.Max<T>` (`0`) of a
+numeric accumulator or one of the page's non-null values; for strings always the latter -/
+theorem minmax_attained_or_init (ty : PType) (maxDef : Nat) (es : List (Entry Bytes))
+    (required : Bool) :
+    (∀ mn, ((acc ty maxDef es).result ty required).2.1 = some mn →
+      (Numeric ty ∧ mn = (Stats.init ty).min) ∨ ∃ e ∈ es, e.val = some mn) ∧
+    (∀ mx, ((acc ty maxDef es).result ty required).2.2 = some mx →
+      (Numeric ty ∧ mx = (Stats.init ty).max) ∨ ∃ e ∈ es, e.val = some mx) :=
+  have h := attained_reported ty maxDef es required
+  ⟨fun mn hmn => (h.1 mn hmn).imp id seen_value, fun mx hmx => (h.2 mx hmx).imp id seen_value⟩
+
+/-! ## The property on `pageStats` / the `Statistics` of a written page -/
+
+/-- C12 for the statistics `pageBytes` puts in a data page header -/
+theorem page_stats_sound (c : Col) (es : PageEntries)
+    (hs : Striped (if c.isRequired then 0 else c.maxDef) es) :
+    let r := (pageStats c es).result c.ty c.isRequired
+    (c.isRequired = false → r.1 = some (es.filter (fun e => e.val.isNone)).length) ∧
+    (∀ mn mx, r.2.1 = some mn → r.2.2 = some mx →
+      isNaN c.ty mn = false ∧ isNaN c.ty mx = false ∧
+      ∀ e ∈ es, ∀ v, e.val = some v → isNaN c.ty v = false → le c.ty mn v ∧ le c.ty v mx) ∧
+    ((∀ e ∈ es, e.val = none) → (c.isRequired = false ∨ c.ty = .str ∨ c.ty = .bool) →
+      r.2.1 = none ∧ r.2.2 = none) := by
+  intro r
+  refine ⟨fun hr => ?_, fun mn mx hmn hmx => ?_, fun hv hk => absent_if_empty hk _ hv⟩
+  · have := null_count_reported c.ty hs
+    rw [← hr] at this
+    exact this
+  · have nn := bounds_not_nan c.ty _ es c.isRequired hmn hmx
+    exact ⟨nn.1, nn.2, bounds_sound c.ty c.isRequired hs hmn hmx⟩
+
+/-! ## Non-vacuity: concrete pages -/
+
+section examples
+
+private def ent (dl : Nat) (v : Option Bytes) : Entry Bytes := { rep := 0, dl := dl, val := v }
+
+/-- required i32 page `[-5, -7]` -/
+private def pI32 : List (Entry Bytes) :=
+  [ent 0 (some (leBytes 4 (2^32 - 5))), ent 0 (some (leBytes 4 (2^32 - 7)))]
+
+example : Striped 0 pI32 := by decide
+example : ∀ v ∈ nonNull pI32, WT .i32 v := by decide
+/-- min = −7, max = 0: loose (no value is 0) but sound -/
+example : (acc .i32 0 pI32).result .i32 true =
+    (none, some [0xf9, 0xff, 0xff, 0xff], some [0, 0, 0, 0]) := by decide
+example : ∀ e ∈ pI32, ∀ v, e.val = some v →
+    toSigned 4 (fromLE [0xf9, 0xff, 0xff, 0xff]) ≤ toSigned 4 (fromLE v) ∧
+    toSigned 4 (fromLE v) ≤ toSigned 4 (fromLE [0, 0, 0, 0]) :=
+  bounds_sound_i32 (maxDef := 0) true (by decide) (by decide) (by decide)
+/-- the same bytes as u32: 4294967289 and 4294967291, max is attained -/
+example : (acc .u32 0 pI32).result .u32 true =
+    (none, some [0xf9, 0xff, 0xff, 0xff], some [0xfb, 0xff, 0xff, 0xff]) := by decide
+
+/-- optional f32 page (maxDef 1): NaN, −0.0, null, +0.0, 1.5, +Inf, null -/
+private def pF32 : List (Entry Bytes) :=
+  [ent 1 (some (leBytes 4 0x7fc00000)), ent 1 (some (leBytes 4 0x80000000)), ent 0 none,
+   ent 1 (some (leBytes 4 0)), ent 1 (some (leBytes 4 0x3fc00000)),
+   ent 1 (some (leBytes 4 0x7f800000)), ent 0 none]
+
+example : Striped 1 pF32 := by decide
+example : isNaN .f32 (leBytes 4 0x7fc00000) = true := by decide
+/-- null_count 2, min = −0.0 (first of the two zeros), max = +Inf; the NaN left no trace -/
+example : (acc .f32 1 pF32).result .f32 false =
+    (some 2, some [0, 0, 0, 0x80], some [0, 0, 0x80, 0x7f]) := by decide
+example : le .f32 [0, 0, 0, 0x80] (leBytes 4 0) ∧ le .f32 (leBytes 4 0) [0, 0, 0, 0x80] := by decide
+example : ∀ e ∈ pF32, ∀ v, e.val = some v → isNaN .f32 v = false →
+    le .f32 [0, 0, 0, 0x80] v ∧ le .f32 v [0, 0, 0x80, 0x7f] :=
+  bounds_sound .f32 (maxDef := 1) false (by decide) (by decide) (by decide)
+/-- all-NaN page: values present, min / max stay at the initial MaxFloat32 / 0 -/
+example : (acc .f32 1 [ent 1 (some (leBytes 4 0x7fc00000))]).result .f32 false =
+    (some 0, some (leBytes 4 0x7f7fffff), some [0, 0, 0, 0]) := by decide
+
+/-- +Inf alone: it is above the initial min MaxFloat32, so min stays MaxFloat32 ≤ +Inf (sound) -/
+example : (acc .f32 0 [ent 0 (some (leBytes 4 0x7f800000))]).result .f32 true =
+    (none, some (leBytes 4 0x7f7fffff), some (leBytes 4 0x7f800000)) := by decide
+/-- −Inf alone: min = −Inf, max stays 0 -/
+example : (acc .f64 0 [ent 0 (some (leBytes 8 0xfff0000000000000))]).result .f64 true =
+    (none, some (leBytes 8 0xfff0000000000000), some (leBytes 8 0)) := by decide
+
+/-- optional string page (maxDef 2): "b", null, "__#NIL#__", "", null, "ab" -/
+private def pStr : List (Entry Bytes) :=
+  [ent 2 (some [98]), ent 1 none, ent 2 (some [95, 95, 35, 78, 73, 76, 35, 95, 95]), ent 2 (some []),
+   ent 0 none, ent 2 (some [97, 98])]
+
+example : Striped 2 pStr := by decide
+example : (acc .str 2 pStr).result .str false = (some 2, some [], some [98]) := by decide
+example : ∀ e ∈ pStr, ∀ v, e.val = some v → ([] : Bytes) ≤ v ∧ v ≤ [98] :=
+  bounds_sound_str (maxDef := 2) false (by decide) (by decide) (by decide)
+
+/-- pages without a value -/
+example : (acc .str 2 [ent 1 none, ent 0 none]).result .str false = (some 2, none, none) := by decide
+example : (acc .i64 1 [ent 0 none]).result .i64 false = (some 1, none, none) := by decide
+example : (acc .str 0 []).result .str true = (none, none, none) := by decide
+/-- required numeric, no value (never written): min / max are the initial values -/
+example : (acc .i32 0 []).result .i32 true =
+    (none, some (leBytes 4 (2^31 - 1)), some [0, 0, 0, 0]) := by decide
+
+end examples
+
+end PQ.C12
